@@ -63,6 +63,7 @@ def cases(draw):
     c["empty_col"] = draw(st.sampled_from([None, None, None, None, "ghi", "temperature"]))
     # timestamps as the index, or in a tz-aware `datetime` column (the other documented way in)
     c["entry"] = draw(st.sampled_from(["index", "index", "datetime_column"]))
+    c["dtype"] = draw(st.sampled_from(["float64", "float64", "float64", "float32"]))  # parquet files deliver float32
     return c
 
 
@@ -123,6 +124,8 @@ def build(c):
                         first["ghi"] = np.nan
                 parts.insert(0, first)
         df = pd.concat(parts).sort_index(kind="stable")
+    if c.get("dtype") == "float32":
+        df = df.astype("float32")
     return df
 
 
@@ -151,7 +154,7 @@ def judge(c, rec):
     cls = em.HourlyReportingData if c["rep"] else em.HourlyBaselineData
     K = "rep" if c["rep"] else "base"
     tags = ["class=" + K, "tz=" + c["tz"], "aim=" + c["aim"], "size=" + ("<13d" if c["ndays"] < 13 else "<61d" if c["ndays"] < 61 else ">=61d"),
-            "entry=" + c.get("entry", "index")]
+            "entry=" + c.get("entry", "index"), "dtype=" + c.get("dtype", "float64")]
     if c.get("entry") == "datetime_column":
         df_in = df.copy()
         df_in.insert(0, "datetime", df_in.index)
